@@ -23,6 +23,8 @@ from cfdppy.filestore import VirtualFilestore
 from cfdppy.mib import CheckTimerProvider, DefaultFaultHandlerBase
 from cfdppy.user import CfdpUserBase
 from crcmod.predefined import PredefinedCrc
+
+RealPredefinedCrc = PredefinedCrc
 from spacepackets.cfdp import ChecksumType
 from spacepackets.cfdp.pdu.helper import PduFactory
 from spacepackets.cfdp.tlv import FilestoreResponseStatusCode as FRC
@@ -260,11 +262,81 @@ class TimerProv(CheckTimerProvider):
 _shim_state = {"mode": None}
 
 
+class SymAwareCrc(RealPredefinedCrc):
+    """crcmod's PredefinedCrc that can also be fed symbolic payloads: what it was fed is recorded; the
+    digest is the abstract checksum token of the genuine prefix if (and, as far as the solver can tell,
+    only if) exactly the bytes [0, n) of the genuine content were fed in order"""
+
+    CT = {"crc32": int(ChecksumType.CRC_32), "crc-32": int(ChecksumType.CRC_32),
+          "crc32c": int(ChecksumType.CRC_32C), "crc-32c": int(ChecksumType.CRC_32C)}
+
+    def __init__(self, crc_name):
+        super().__init__(crc_name)
+        self._ct = self.CT.get(str(crc_name).lower())
+        self._fed = []  # symbolic chunks in order; a concrete chunk in between makes the digest opaque
+        self._opaque = False
+
+    def update(self, data):
+        if isinstance(data, SymBytes):
+            self._fed.append(data)
+            return
+        if len(data) > 0:
+            self._opaque = True  # concrete bytes: not (only) the genuine symbolic content
+        super().update(data)
+
+    def copy(self):
+        c = SymAwareCrc.__new__(SymAwareCrc)
+        c.__dict__.update(RealPredefinedCrc.copy(self).__dict__)
+        c._ct, c._fed, c._opaque = self._ct, list(self._fed), self._opaque
+        return c
+
+    def new(self, arg=None):
+        c = SymAwareCrc.__new__(SymAwareCrc)
+        c.__dict__.update(RealPredefinedCrc.new(self).__dict__)
+        c._ct, c._fed, c._opaque = self._ct, [], False
+        if arg is not None:
+            c.update(arg)
+        return c
+
+    def digest(self):
+        if not self._fed:
+            return super().digest()
+        ctx = Ctx.cur
+        h = z3.Int(ctx.fresh("Hc"))
+        pos = z3.IntVal(0)
+        conds = [z3.BoolVal(not self._opaque and self._ct is not None)]
+        for c in self._fed:
+            conds.append(z3.And(_z(c.src) == 0, _z(c.start) == pos))
+            pos = pos + _z(c.n)
+        pos = z3.simplify(pos)
+        ctx.assume(z3.Implies(z3.And(*conds), h == Hs(self._ct if self._ct is not None else -7, pos)))
+        return SymChecksum(h)
+
+
+_crc_rebound = []
+
+
+def _rebind_crc(cls_from, cls_to):
+    """every cfdppy module that imported crcmod's class by name gets the other class"""
+    import sys as _sys
+
+    import crcmod.predefined as _cp
+    if _cp.PredefinedCrc is cls_from:
+        _cp.PredefinedCrc = cls_to
+    for name, mod in list(_sys.modules.items()):
+        if mod is None or not name.startswith("cfdppy"):
+            continue
+        for attr, val in list(vars(mod).items()):
+            if val is cls_from:
+                setattr(mod, attr, cls_to)
+
+
 def apply_shims(mode):
     """bind (sym) or unbind (conc) the module-namespace shims"""
     if _shim_state["mode"] == mode:
         return
     if mode == "sym":
+        _rebind_crc(RealPredefinedCrc, SymAwareCrc)
         for m in (destmod, srcmod, fdmod):
             m.len = sym_len
         destmod.dict = SymDict
@@ -272,6 +344,7 @@ def apply_shims(mode):
         srcmod.Countdown = SymCountdown
         cdmod.time_ms = _real_time_ms
     else:
+        _rebind_crc(SymAwareCrc, RealPredefinedCrc)
         for m in (destmod, srcmod, fdmod):
             m.__dict__.pop("len", None)
         destmod.__dict__.pop("dict", None)
@@ -282,6 +355,7 @@ def apply_shims(mode):
 
 
 def remove_shims():
+    _rebind_crc(SymAwareCrc, RealPredefinedCrc)
     for m in (destmod, srcmod, fdmod):
         m.__dict__.pop("len", None)
     destmod.__dict__.pop("dict", None)
@@ -295,6 +369,7 @@ SHIMS_DOC = [
     "len bound in cfdppy.handler.dest/source and spacepackets.cfdp.pdu.file_data (symbolic payload length)",
     "dict bound in cfdppy.handler.dest (association list compared by ==)",
     "Countdown bound in cfdppy.handler.dest/source (symbolic clock, interval 1 unit, clock advances only between API calls)",
+    "crcmod PredefinedCrc, wherever a cfdppy module imported it by name: subclass that records symbolic payloads and answers with the abstract checksum token of the genuine prefix iff exactly that prefix was fed",
 ]
 
 
@@ -343,6 +418,7 @@ def _pkey(p):
     return pathlib.PurePosixPath(str(p)).as_posix()
 
 
+SMALL_PTS = 8  # injectivity of the checksum abstraction is also instantiated at offsets 0..SMALL_PTS-1
 ALT_SRC = 99  # source id of the unrelated second file content
 ALT_CK = 100  # offset of its checksum tokens in the first argument of Hs
 
@@ -615,6 +691,9 @@ class MemFs(VirtualFilestore):
             # difference can become visible: offset 0, every write end, every corruption index
             pts = [_z(self.w.witness), z3.IntVal(0)] + [_z(o) + _z(sym_len(d)) for o, d in f.log]
             pts += [_z(j) for j in self.w.corrupt_points]
+            # ... and at the first few offsets, so that the small models the concrete twin replays agree
+            # with the abstraction byte for byte (files of up to SMALL_PTS bytes)
+            pts += [z3.IntVal(q) for q in range(1, SMALL_PTS)]
             oks = [z3.Implies(z3.And(0 <= p, p < n), z3.And(p < end, self.byte_term(k, p) == C(0, p)))
                    for p in pts]
             if self.w.nonzero_source:
@@ -785,6 +864,8 @@ class World:
         self.bad_payloads = []
         if self.sym:
             ctx.model_hooks.append(self._model_hook)
+            # the checksum of nothing is zero for every implemented type (CRC-32, CRC-32C, modular)
+            ctx.assume(*[Hs(int(t), 0) == 0 for t in (ChecksumType.CRC_32, ChecksumType.CRC_32C, ChecksumType.MODULAR)])
 
     def fs(self, name):
         f = MemFs(self, name)
